@@ -25,7 +25,7 @@ func scalePaths(ps clip.Paths64, k int64) clip.Paths64 {
 //	scaling:     op(k x) is the k-fold of the true region of x          (|coords| <= 2^61)
 func cmdC13(r *RNG, n int, e *Emitter, args []string) {
 	for i := 0; i < n; i++ {
-		takeDiscards()
+		clearEvents()
 		G := []int64{4, 8, 16, 32, 100}[r.Intn(5)]
 		var info GenInfo
 		info.Grid = G
